@@ -313,6 +313,9 @@ class DataModel:
         return TObj(s, p)
 
 
+PI_Q = z3.RealVal(str(__import__("fractions").Fraction(__import__("math").pi)))      # the double M_PI, exactly
+
+
 class IllTyped(Exception):
     "The emitted code is not well-formed C++ against the declared data model."
 
@@ -612,6 +615,14 @@ class Event:
 
     def free_function(self, name, args, ret_kind="double"):
         name = re.sub(r"^std::", "", name)
+        if name == "TVector2::Phi_mpi_pi" and len(args) == 1:
+            # ROOT: the angle folded into [-pi, pi) by whole turns: r = x - 2*pi*k for the integer k that puts r in range
+            # (pi is the double nearest to it, as M_PI / TMath::Pi() are)
+            x = real(args[0])
+            k = self._uf("fn:Phi_mpi_pi#turns", [z3.RealSort()], z3.IntSort())(x)
+            r = x - 2 * PI_Q * z3.ToReal(k)
+            self.cons += [r >= -PI_Q, r < PI_Q]
+            return Num("double", r)
         dom = [z3.RealSort()] * len(args)
         f = self._uf("fn:" + name, dom, z3.RealSort() if ret_kind != "int" else z3.IntSort())
         return Num(ret_kind, f(*[real(a) for a in args]))
